@@ -223,9 +223,11 @@ class VarBytesColumn(Column):
 
         def finish(self, doccount):
             dbfile = self._dbfile
+            # (fill first: padding can widen the arrays' type, which replaces
+            # the array objects)
+            self.fill(doccount)
             lengths = self._lengths.array
             offsets = self._offsets.array
-            self.fill(doccount)
 
             dbfile.write_array(lengths)
 
